@@ -34,8 +34,8 @@ type vpState struct {
 	Gas   int64       `json:"gas"`
 	Regs  [13]uint64  `json:"regs"`
 	Pages []vpPage    `json:"pages"`
-	Host  []vpHostAct `json:"host"` // schedule: call k uses Host[k % len]
-	Heap  uint64      `json:"heap"` // initial heap pointer (sbrk); 0 = unset
+	Host  []vpHostAct `json:"host"`  // schedule: call k uses Host[k % len]
+	Heap  uint64      `json:"heap"`  // initial heap pointer (sbrk); 0 = unset
 	HeapL uint64      `json:"heapl"` // heap limit
 }
 
@@ -473,6 +473,16 @@ func vpGenAddr(rt *rapid.T, pages []vpPage, label string) uint64 {
 	return v
 }
 
+// vpCornerPairs: operand pairs at which two-register arithmetic has a special case (signed
+// overflow of the quotient, division by zero, shift counts at the width), in 32- and 64-bit
+// flavours; the 32-bit ones also with "dirty" upper halves, which a 32-bit instruction must ignore.
+var vpCornerPairs = [][2]uint64{
+	{0x80000000, 0xFFFFFFFF}, {0xFFFFFFFF80000000, 0xFFFFFFFFFFFFFFFF}, {0x1234567880000000, 0x00000001FFFFFFFF},
+	{0xDEADBEEF80000000, 0xFFFFFFFF}, {0x8000000000000000, 0xFFFFFFFFFFFFFFFF}, {0x80000000, 0}, {0x8000000000000000, 0},
+	{0x80000001, 0xFFFFFFFF}, {0x7FFFFFFF, 0xFFFFFFFF}, {0xFFFFFFFF, 0x80000000}, {1, 0x100000000}, {7, 0xFFFFFFFF00000000},
+	{0xFFFFFFFFFFFFFFFF, 32}, {0xFFFFFFFFFFFFFFFF, 64}, {0x80000000, 31}, {0x8000000000000000, 63}, {1, 0xFFFFFFFFFFFFFFE0},
+}
+
 func vpGenRegs(rt *rapid.T, pages []vpPage) [13]uint64 {
 	var r [13]uint64
 	for i := range r {
@@ -481,6 +491,23 @@ func vpGenRegs(rt *rapid.T, pages []vpPage) [13]uint64 {
 		} else {
 			r[i] = vpGenU64(rt, "reg")
 		}
+	}
+	// corner pairs spread over the registers the generated instructions pick their operands from
+	switch rapid.IntRange(0, 3).Draw(rt, "corner_pairs") {
+	case 0:
+		p := rapid.SampledFrom(vpCornerPairs).Draw(rt, "corner")
+		for i := range r {
+			r[i] = p[i%2]
+		}
+		if rapid.Bool().Draw(rt, "corner_swapped") {
+			for i := range r {
+				r[i] = p[(i+1)%2]
+			}
+		}
+	case 1:
+		p := rapid.SampledFrom(vpCornerPairs).Draw(rt, "corner")
+		a, b := rapid.IntRange(0, 12).Draw(rt, "corner_a"), rapid.IntRange(0, 12).Draw(rt, "corner_b")
+		r[a], r[b] = p[0], p[1]
 	}
 	return r
 }
